@@ -120,6 +120,9 @@ CHECKS = {
 
 # additions made in the second half of the build (DESIGN.md 10.6 / 10.7): appended to the entries above
 ADDENDA = {
+    "C12": dict(technique="; for float: jet comparison of switch arms and first-order floating-point error analysis of the closed-form arms of exp / log values (R-JET, R-ROUND)",
+                text=" C12.d (single-precision clause, values of exp / log): the arms of every precision switch meet at the float switch-over and the first-order rounding-error bound of the closed-form arm in float stays below 1e-4 relative to max(1, |value|) over a ladder of rotation magnitudes from the switch-over (mixed worlds between two switch-overs included).",
+                note=" Float Jacobians are not examined by C12.d."),
     "C01": dict(text=" A data-dependent precision switch inside these operations forks the evaluation; the identities are required in every world."),
     "C02": dict(technique="; abstract interpretation of exp over truncated power series in the tangent (R-SERIES, engine/jetnum.py); first-order floating-point error analysis of the closed-form arms (R-ROUND, engine/rounding.py)",
                 text=" R-SERIES.exp: for SO2, SE2, SO3, SE3, SE_2_3, SGal3 the code of exp interpreted over truncated power series with exact rational coefficients (all directions at once) gives T(exp t) = sum_{k<=5} hat(t)^k/k! cell by cell, in the closed-form world and in every small-angle world (residual monomials bounded by |coef| * theta_s^a against the R-JET tolerances for double and float), hat being the table proved by C07.",
